@@ -23,6 +23,9 @@ YIELD_WRAPS = ["plain", "if", "for", "while", "with", "asyncwith", "asyncfor", "
                "call_arg", "augassign", "annassign", "cond_expr", "in_match",
                # a try statement yielding in several of its blocks: the first in SOURCE order counts
                "except_and_else", "else_and_finally", "two_handlers"]
+# forms that only run as fixed programs (`yield_programs`; the drawn programs keep their stream): a yield inside a lambda
+# (or a comprehension) belongs to THAT scope - the fixture does not yield there
+EXTRA_YIELD_FORMS = ["lambda_only", "lambda_then_yield", "genexp_then_yield"]
 
 
 class Src:
@@ -145,6 +148,12 @@ def yield_body(rng, src, indent, kind=None):
     if kind == "two_handlers":
         return [f"{i}try:", f"{i}    pass", f"{i}except KeyError:", f"{i}    pass", f"{i}except Exception:", f"{i}    yield 22",
                 f"{i}finally:", f"{i}    yield 23"]
+    if kind == "lambda_only":
+        return [f"{i}stream = lambda: (yield 30)", f"{i}return stream"]
+    if kind == "lambda_then_yield":
+        return [f"{i}cb = lambda x=1: (yield x)", f"{i}other = (lambda: (yield))", f"{i}yield 31"]
+    if kind == "genexp_then_yield":
+        return [f"{i}gen = ((yield) for _ in range(0)) if False else None", f"{i}yield 32"]
     if kind == "nested_then_top":
         return [f"{i}if not True:", f"{i}    yield None", f"{i}    return", f"{i}yield 8"]
     if kind == "top_then_nested":
@@ -373,7 +382,7 @@ TYPING_DEFS = ["def test_a(", "def test_a(x, ", "def test_a(x):", "async def fx(
 def yield_programs():
     """one program per yield form, fixed (no random choice): a fixture whose body is exactly that form"""
     out = []
-    for kind in YIELD_WRAPS:
+    for kind in YIELD_WRAPS + EXTRA_YIELD_FORMS:
         src = Src()
         src.add("import pytest")
         src.add("")
